@@ -71,11 +71,24 @@ pub fn evaluate_sub_op(a: &Val, b: &Val) -> Result<Val> {
 	})
 }
 
+fn repeat_string(s: &StrValue, count: f64) -> Result<Val> {
+	let s = s.to_string();
+	let count = count as usize;
+	// Strings are limited to 4GB, do not attempt to allocate more than that
+	if s
+		.len()
+		.checked_mul(count)
+		.is_none_or(|len| len > u32::MAX as usize)
+	{
+		bail!("repeated string is too long");
+	}
+	Ok(Val::string(s.repeat(count)))
+}
+
 pub fn evaluate_mul_op(a: &Val, b: &Val) -> Result<Val> {
 	use Val::*;
 	Ok(match (a, b) {
-		(Str(s), Num(c)) => Val::string(s.to_string().repeat(c.get() as usize)),
-		(Num(c), Str(s)) => Val::string(s.to_string().repeat(c.get() as usize)),
+		(Str(s), Num(c)) | (Num(c), Str(s)) => repeat_string(s, c.get())?,
 
 		(Num(v1), Num(v2)) => Val::try_num(v1.get() * v2.get())?,
 
